@@ -165,4 +165,10 @@ theorem C18_append (s : Stream) (hs : s.closed = false) (f : FileInfo) (closefd 
         by_cases hev : f.minor4 = true ∧ 0 < f.nEvlrs <;>
         simp [hev, Stream.call, Stream.close, h1]
 
+
+/-- non-vacuity: an open stream and a valid file meet the hypotheses of `C18_read` / `C18_append`; opening succeeds -/
+example : let s : Stream := ⟨true, true, 0, false, []⟩
+    s.closed = false ∧ ∃ r, openRead s ⟨true, true, true, true, true, 5, 2, 375, 30⟩ true true = .ok r :=
+  ⟨rfl, _, rfl⟩
+
 end LasModel.Props.C18
